@@ -381,6 +381,13 @@ fn mac3(mut acc: &mut [BigDigit], mut b: &[BigDigit], mut c: &[BigDigit]) {
 
         // w(-2)
         let r3 = ((p2 + x2) * 2 - x0) * ((q2 + y2) * 2 - y0);
+        #[cfg(num_bigint_verif)]
+        {
+            let r3_ref: &BigInt = &r3;
+            if r2.sign() == Minus || r3_ref.sign() == Minus {
+                crate::verif_probe::hit(45);
+            }
+        }
 
         // Evaluating these points gives us the following system of linear equations.
         //
